@@ -378,3 +378,227 @@ func sortStrings(a []string) {
 		}
 	}
 }
+
+// ValidForced builds a document valid for s in which the position reached by
+// via (steps: prop:<n>, items, tuple:<i>, allOf:<i>, addl, ref:<Def>) holds value.
+func ValidForced(t *rapid.T, label string, root J, s J, via []string, value any, depth int) (any, bool) {
+	s = Resolve(root, s)
+	for len(via) > 0 && (strings.HasPrefix(via[0], "ref:") || strings.HasPrefix(via[0], "def:")) {
+		via = via[1:]
+	}
+	if len(via) == 0 {
+		return value, true
+	}
+	if depth > 8 {
+		return nil, false
+	}
+	step, rest := via[0], via[1:]
+	base, ok := Valid(t, label+"_base", root, s, depth)
+	if !ok {
+		return nil, false
+	}
+	switch {
+	case strings.HasPrefix(step, "prop:"):
+		pn := strings.TrimPrefix(step, "prop:")
+		props, _ := s["properties"].(J)
+		ps, _ := props[pn].(J)
+		obj, isObj := base.(J)
+		if ps == nil || !isObj {
+			return nil, false
+		}
+		v, ok := ValidForced(t, label+"_"+pn, root, ps, rest, value, depth+1)
+		if !ok {
+			return nil, false
+		}
+		obj[pn] = v
+		return obj, true
+	case step == "items":
+		it, _ := s["items"].(J)
+		arr, isArr := base.(A)
+		if it == nil || !isArr {
+			return nil, false
+		}
+		v, ok := ValidForced(t, label+"_it", root, it, rest, value, depth+1)
+		if !ok {
+			return nil, false
+		}
+		if len(arr) == 0 {
+			if mx, ok := num(s["maxItems"]); ok && mx < 1 {
+				return nil, false
+			}
+			arr = A{v}
+		} else {
+			arr[0] = v
+		}
+		return arr, true
+	case strings.HasPrefix(step, "tuple:"):
+		its, _ := s["items"].(A)
+		arr, isArr := base.(A)
+		idx := 0
+		fmt.Sscanf(strings.TrimPrefix(step, "tuple:"), "%d", &idx)
+		if !isArr || idx >= len(its) || idx >= len(arr) {
+			return nil, false
+		}
+		ij, _ := its[idx].(J)
+		v, ok := ValidForced(t, label+"_tu", root, ij, rest, value, depth+1)
+		if !ok {
+			return nil, false
+		}
+		arr[idx] = v
+		return arr, true
+	case strings.HasPrefix(step, "allOf:"):
+		ms, _ := s["allOf"].(A)
+		idx := 0
+		fmt.Sscanf(strings.TrimPrefix(step, "allOf:"), "%d", &idx)
+		if idx >= len(ms) {
+			return nil, false
+		}
+		mj, _ := ms[idx].(J)
+		v, ok := ValidForced(t, label+"_ao", root, mj, rest, value, depth+1)
+		if !ok {
+			return nil, false
+		}
+		obj, isObj := base.(J)
+		vo, isObj2 := v.(J)
+		if !isObj || !isObj2 {
+			if len(rest) == 0 {
+				return v, true
+			}
+			return nil, false
+		}
+		for k, x := range vo {
+			obj[k] = x
+		}
+		// keys of the base that the forced member value deliberately lacks
+		if len(rest) == 0 {
+			mprops, _ := Resolve(root, mj)["properties"].(J)
+			for k := range mprops {
+				if _, keep := vo[k]; !keep {
+					delete(obj, k)
+				}
+			}
+		}
+		return obj, true
+	case step == "addl":
+		ap, _ := s["additionalProperties"].(J)
+		obj, isObj := base.(J)
+		if ap == nil || !isObj {
+			return nil, false
+		}
+		v, ok := ValidForced(t, label+"_ap", root, ap, rest, value, depth+1)
+		if !ok {
+			return nil, false
+		}
+		obj["forcedExtra"] = v
+		return obj, true
+	}
+	return nil, false
+}
+
+// Candidates proposes values for a (resolved) schema position that are likely
+// valid for it: boundary values of every constraint plus a few generated ones.
+func Candidates(t *rapid.T, label string, root J, s J) []any {
+	s = Resolve(root, s)
+	var out []any
+	add := func(v any) { out = append(out, v) }
+	for _, e := range asList(s["enum"]) {
+		add(e)
+	}
+	switch s["type"] {
+	case "integer", "number":
+		if mn, ok := num(s["minimum"]); ok {
+			add(mn)
+			add(mn + 1)
+			add(mn + 0.5)
+		}
+		if mx, ok := num(s["maximum"]); ok {
+			add(mx)
+			add(mx - 1)
+			add(mx - 0.5)
+		}
+		if m, ok := num(s["multipleOf"]); ok {
+			add(m)
+			add(m * 3)
+			add(-m)
+		}
+		for _, v := range []float64{0, 1, -1, 2, 3, 7, 1.5, 0.25, 100, -100, 1e6, 3e9, -3e9, 1e12} {
+			add(v)
+		}
+	case "string":
+		if f, ok := s["format"].(string); ok && f != "" {
+			for _, e := range StringFormats[f] {
+				add(e)
+			}
+		}
+		mn, _ := num(s["minLength"])
+		mx, hasMax := num(s["maxLength"])
+		if p, ok := s["pattern"].(string); ok {
+			if pat := PatByRe(p); pat != nil {
+				for _, n := range []int{pat.Min, pat.Min + 1, int(mn), int(mx), pat.Min + 4} {
+					if n >= pat.Min && (pat.Max < 0 || n <= pat.Max) {
+						add(pat.Make(n))
+					}
+				}
+			}
+		}
+		add(strings.Repeat("x", int(mn)))
+		if hasMax {
+			add(strings.Repeat("y", int(mx)))
+		} else {
+			add(strings.Repeat("z", int(mn)+12))
+		}
+		for _, v := range []string{"", "a", "ab", "Abc", "hello world", "12", "x-y", "true", "2020-02-29"} {
+			add(v)
+		}
+	case "boolean":
+		add(true)
+		add(false)
+	}
+	for i := 0; i < 4; i++ {
+		if v, ok := Valid(t, fmt.Sprintf("%s_c%d", label, i), root, s, 2); ok {
+			add(v)
+			if arr, isArr := v.(A); isArr && len(arr) > 0 {
+				add(append(append(A{}, arr...), arr[0])) // duplicate
+				add(arr[:len(arr)-1])
+				add(append(append(A{}, arr...), arr...))
+			}
+			if obj, isObj := v.(J); isObj {
+				// minimal variant: required properties only
+				req := map[string]bool{}
+				for _, r := range asList(s["required"]) {
+					req[fmt.Sprint(r)] = true
+				}
+				min := J{}
+				for k, x := range obj {
+					if req[k] {
+						min[k] = x
+					}
+				}
+				add(min)
+			}
+		}
+	}
+	if it, ok := s["items"].(J); ok && s["type"] == "array" {
+		mn, _ := num(s["minItems"])
+		mx, hasMax := num(s["maxItems"])
+		for _, n := range []int{int(mn), int(mx), int(mn) + 1} {
+			if n < 0 || (hasMax && n > int(mx)) {
+				continue
+			}
+			arr := A{}
+			okAll := true
+			for i := 0; i < n; i++ {
+				v, ok := Valid(t, fmt.Sprintf("%s_arr%d_%d", label, n, i), root, it, 2)
+				if !ok {
+					okAll = false
+					break
+				}
+				arr = append(arr, v)
+			}
+			if okAll {
+				add(arr)
+			}
+		}
+	}
+	return out
+}
